@@ -11,17 +11,18 @@ LEVEL = "exploration"
 TECHNIQUE = ("runtime reference-model monitor: autograd gradients of quad (first order and Hessian-vector products through the graph-recording "
              "backward) against a plain-torch re-implementation of the same n-point rule with scipy nodes (n of the forward call or of "
              "bck_options), Leibniz boundary terms +f(xu)/-f(xl) evaluated directly on the integrand")
-LEVEL_TEXT = ("Held on every generated call of the run: 9 integrand families (incl. integrands linear in a parameter, tuple outputs, decaying "
-              "integrands on infinite ranges) x functions / nn.Module / EditableModule methods with and without a parameter the integrand "
+LEVEL_TEXT = ("Held on every generated call of the run: 17 integrand families (incl. integrands linear in a parameter, tuple outputs, decaying "
+              "integrands on infinite ranges, and 8 multi-element integrands whose output shape follows the abscissa - stack / cat / outer "
+              "product along the first or last axis - under every pair of limit forms number / 0-dim / shape (1,)) x functions / nn.Module / EditableModule methods with and without a parameter the integrand "
               "does not use x forward n in {2,3,5,7,20,100,default} x bck_options {absent, {}, other n} x limits as python floats / ints / "
-              "tensors with and without requires_grad / +-inf x random subsets of grad-requiring tensors (incl. none) x first and second order "
+              "tensors with and without requires_grad (also float32 tensors with the float64 integrand) / +-inf x random subsets of grad-requiring tensors (incl. none) x first and second order "
               "(mixed limit/parameter terms); every gradient agrees with the reference to 1e-11 (relative to max(1,|ref|)); tensors that do "
               "not influence the integrand get zero or None.")
-LEVEL_NOTE = ("float64 only; the reference assumes the x=tan(t) substitution for infinite limits (named in the property's anchors); "
+LEVEL_NOTE = ("float64 integrands only (a tensor limit may be float32; the opposite pairing is not generated); the reference assumes the x=tan(t) substitution for infinite limits (named in the property's anchors); "
               "infinite limits are gradient leaves only in first-order cases (d/dx of exp(-x^2) at inf is 0*inf in any autograd).")
 RULE = ("seeded sampling over family x function kind x n x bck_options x limit forms x grad-requiring subset x order, plus stratified "
         "directed classes (number limits, no grad-requiring parameter, small n without/with bck_options, unused parameter, second order of "
-        "integrands linear in a parameter); non-trivial = forward and all requested backward passes returned, every leaf was compared, and "
+        "integrands linear in a parameter, output shape following the abscissa x all 25 pairs of limit forms x order); non-trivial = forward and all requested backward passes returned, every leaf was compared, and "
         "at least one leaf has a reference gradient above 1e-6")
 MIN_NONTRIVIAL = {"quick": 1800, "thorough": 18000}
 ASSUMPTIONS = [
@@ -32,15 +33,27 @@ ASSUMPTIONS = [
     "(counter rule_discriminates); the other cases cannot tell the two rules apart and say so",
     "infinite limits: Gaussian and exponential decay only (f(+-inf) = 0 exactly); an infinite limit requires grad only in first-order cases",
     "a tensor that does not influence the integrand may get None or zeros (both accepted)",
+    "a tensor limit of another precision: float32 limit (0-dim, or shape (1,) with parameters that have a dimension) with a float64 integrand; "
+    "the gradient returned for such a leaf is rounded to float32 by autograd, so it is compared to 1e-5*max(1,|reference|) (largest deviation "
+    "seen 6e-3 of that); the Hessian-vector directions of such leaves are float32-representable and every other leaf keeps 1e-11",
+    "integrands whose output shape follows the abscissa: the result is compared element by element in row-major order (its shape, which follows "
+    "the upper limit's, is not part of the statement); these families are used on finite ranges only",
 ]
 BUDGET = {"quick": {"worker_timeout": 900, "case_timeout": 120}, "thorough": {"worker_timeout": 3300, "case_timeout": 300}}
 _REQ = {"extra_late_rebind_histories": 20, "extra_abort_injected": 20, "number_limit_cases": 400, "no_grad_param_cases": 100, "unused_param_cases": 400, "bck_n_cases": 500, "rule_discriminates": 250,
         "second_order_cases": 350, "second_order_linear_param": 200, "inf_limit_cases": 100, "limit_leaf_compared": 700,
         "param_leaf_compared": 1500, "kind_func": 250, "kind_nnmod": 250, "kind_editmod": 250, "tuple_output_cases": 80,
-        "mixed_second_order_terms": 300, "mixed_shape_limit_cases": 200}
+        "mixed_second_order_terms": 300, "mixed_shape_limit_cases": 200,
+        # integrands whose output shape follows the abscissa (stack / cat / outer product): reached at all, with a limit LEAF whose shape is not
+        # that of the other limit (lower / upper), the same at second order, and with a python number as a limit
+        "outshape_cases": 300, "outshape_xl_leaf_other_shape": 60, "outshape_xu_leaf_other_shape": 60,
+        "outshape_other_shape_second_order": 40, "outshape_number_limit": 100,
+        # a float32 tensor limit with a float64 integrand: reached, as a gradient leaf, as a gradient leaf at second order
+        "lim32_cases": 100, "lim32_leaf_cases": 60, "lim32_leaf_second_order": 40}
 REQUIRED_COUNTERS = {"quick": dict(_REQ), "thorough": {k: 10 * v for k, v in _REQ.items()}}
 INF = float("inf")
 RTOL = 1e-11
+RTOL32 = 1e-5      # gradient returned for a float32 leaf (a limit of another precision): rounded to float32 (6e-8 relative) by autograd
 
 FAMS = {
     # name: (parameter names, {name: kind of value}, formula)
@@ -56,6 +69,53 @@ FAMS = {
 }
 FINITE_FAMS = ["expax", "sinab", "rat", "linamp", "lead", "scalar", "tuple", "gauss", "expdecay"]
 LINEAR_IN = {"linamp": ["a", "b"], "lead": ["a"], "scalar": ["a"], "gauss": ["amp"], "expdecay": ["amp"], "rat": ["b"], "tuple": []}
+
+
+# ---- integrands with SEVERAL output elements whose output SHAPE FOLLOWS THE ABSCISSA (x 0-dim -> (k,), x of shape (1,) -> (k,1) or (1,k), ...):
+# the result y takes the shape of the integrand at the quadrature points (which follow xu), while the boundary terms of the backward evaluate
+# the integrand at each limit as the caller gave it - so cotangent and f(limit) have the same elements in the same order but other shapes
+def _moments(x, P):
+    w = torch.exp(-P["a"] * x)
+    return torch.stack([w, x * w + P["b"], x * x * w * P["b"]])
+
+
+SHAPE_FAMS = {
+    # stacked / concatenated along the FIRST axis: (k,) for a 0-dim x, (k, 1) for x of shape (1,)
+    "moments": (["a", "b"], _moments),
+    "cat0": (["a", "b"], lambda x, P: torch.cat([(P["a"] * x)[None], torch.exp(P["b"] * x)[None], (x * x)[None]], dim=0)),
+    # along the LAST axis: (k,) / (1, k)
+    "stacklast": (["a", "b"], lambda x, P: torch.stack([torch.sin(P["a"] * x + P["b"]), torch.cos(P["a"] * x) * P["b"], P["a"] * x * x, x], dim=-1)),
+    "catlast": (["a", "b"], lambda x, P: torch.cat([torch.sin(P["a"] * x)[..., None], (P["b"] * x * x)[..., None],
+                                                    torch.cos(x + P["b"])[..., None]], dim=-1)),
+    # outer products of a vector parameter with a function of x: shape(a) + shape(x) resp. shape(x) + shape(a)
+    "outer": (["a", "b"], lambda x, P: torch.tensordot(P["a"], torch.sin(P["b"] * x) + x, dims=0)),
+    "outerlead": (["a", "b"], lambda x, P: P["a"] * torch.exp(P["b"] * x)[..., None]),
+    # an extra singleton axis after the stacked one: (k, 1) / (k, 1, 1)
+    "stackmid": (["a", "b"], lambda x, P: torch.stack([torch.cos(P["a"] * x), P["b"] * x, torch.sin(x * P["b"] + P["a"])])[:, None]),
+    # tuple output with a stacked component
+    "tuplestack": (["a", "b"], lambda x, P: (torch.stack([torch.cos(P["a"] * x + P["b"]), x * P["a"]]), P["b"] * torch.sin(P["a"] * x))),
+}
+SHAPE_FAM_NAMES = list(SHAPE_FAMS)
+FAMS.update(SHAPE_FAMS)
+LINEAR_IN.update({"moments": ["b"], "cat0": ["a"], "stacklast": [], "catlast": ["b"], "outer": ["a"], "outerlead": ["a"], "stackmid": [], "tuplestack": []})
+PSHAPES = {"outer": {"a": [3]}, "outerlead": {"a": [3]}}          # per-name parameter shapes (default: the case's pshape)
+OUT_FORMS = ["num", "t0", "t0g", "t1", "t1g"]
+# ---- a limit given as a tensor of ANOTHER PRECISION (float32) than the (float64) integrand.  The integrand's precision is what torch's type
+# promotion makes of integrand(xl): a 0-dim float32 x never lowers it; a float32 x of shape (1,) does not either if the float64 parameters it is
+# combined with have a dimension (families below with pshape [1] / [3]).  run_case verifies this promise (HarnessBug otherwise).
+LIM32_T1_FAMS = ["expax", "sinab", "rat", "linamp", "lead", "tuple", "gauss", "expdecay"]
+
+
+def _lim32_safe(d, form):
+    if form in ("t0", "t0g"):
+        return True
+    return form in ("t1", "t1g") and d["pshape"] in ([1], [3]) and d["fam"] in LIM32_T1_FAMS
+
+
+def _set_lim32(d, want):
+    ok = [w for w in ("xl", "xu") if _lim32_safe(d, d["f" + w])]
+    leaf = [w for w in ok if d["f" + w].endswith("g")]
+    d["lim32"] = [w for w in want if w in ok] or leaf[:1] or ok[:1]
 KINDS = ["func", "func_unused", "nnmod", "nnmod_unused", "editmod", "editmod_unused"]
 NFWD = [2, 3, 5, 7, 20, 100, None]
 NBCK = [None, None, "empty", 3, 6, 11, 40]
@@ -78,7 +138,7 @@ def _finite_limits(rng, fxl, fxu):
 
 def _mk(rng, seed, tag, i, **force):
     d = {"group": force.pop("group", "random"), "seed": sub_seed(seed, "c13s", tag, i)}
-    fam = force.get("fam") or rng.choice(FINITE_FAMS)
+    fam = force.get("fam") or (rng.choice(SHAPE_FAM_NAMES) if rng.random() < 0.2 else rng.choice(FINITE_FAMS))
     names = FAMS[fam][0]
     d["fam"] = fam
     d["kind"] = force.get("kind") or rng.choice(KINDS)
@@ -86,6 +146,8 @@ def _mk(rng, seed, tag, i, **force):
     d["nb"] = force["nb"] if "nb" in force else rng.choice(NBCK)
     d["order"] = force.get("order") or rng.choice([1, 1, 2])
     d["pshape"] = rng.choice([[], [1], [3]]) if fam not in ("lead", "scalar") else ([3] if fam == "lead" else [])
+    if fam in SHAPE_FAMS:
+        d["pshape"] = []          # scalar parameters (a vector one where PSHAPES says so): the output shape is to follow x, not a parameter
     infinite = force.get("inf", fam in ("gauss", "expdecay") and rng.random() < 0.7)
     if infinite:
         rk = "upper" if fam == "expdecay" else rng.choice(["both", "lower", "upper"])
@@ -126,6 +188,11 @@ def _mk(rng, seed, tag, i, **force):
         if d["pyparam"] in d["req"]:
             d["pyparam"] = None
     d["explicit_method"] = rng.random() < 0.3
+    d["lim32"] = []
+    if "lim32" in force:
+        _set_lim32(d, force["lim32"])
+    elif rng.random() < 0.06:
+        _set_lim32(d, rng.choice([["xl"], ["xu"], ["xl", "xu"]]))
     return d
 
 
@@ -168,6 +235,20 @@ def cases(seed, tier):
         req = [rng.choice(lin)] if i % 2 == 0 else sorted(set(lin + [nm for nm in FAMS[fam][0] if rng.random() < 0.4]))
         out.append(_mk(rng, seed, "lin", i, group="linear_second", fam=fam, order=2, req=req,
                        n=rng.choice([3, 5, 7, 20]) if fam not in ("gauss", "expdecay") else rng.choice([20, 100])))
+    # integrands whose output shape follows the abscissa x every pair of limit forms (number / 0-dim / shape (1,), requiring grad or not) x order
+    for i in range(100 * mult):
+        rng = random.Random(sub_seed(seed, "c13osh", i))
+        fxl, fxu = OUT_FORMS[i % 5], OUT_FORMS[(i // 5) % 5]
+        fam = SHAPE_FAM_NAMES[(i // 25) % len(SHAPE_FAM_NAMES)]
+        names = FAMS[fam][0]
+        out.append(_mk(rng, seed, "osh", i, group="outshape", fam=fam, fxl=fxl, fxu=fxu, inf=False, order=1 + (i // 200) % 2,
+                       req=sorted(nm for nm in names if rng.random() < 0.6)))
+    # a tensor limit of another precision than the integrand (float32 limit, float64 integrand), mostly a gradient leaf, mostly second order
+    for i in range(40 * mult):
+        rng = random.Random(sub_seed(seed, "c13l32", i))
+        fx = [("t0g", "t0g"), ("t0g", "num"), ("num", "t0g"), ("t1g", "t0"), ("t0g", "t1g"), ("t1g", "t1g"), ("t0", "t0g"), ("t0g", "t0")][i % 8]
+        out.append(_mk(rng, seed, "l32", i, group="limit_dtype", fxl=fx[0], fxu=fx[1], inf=False, order=[2, 2, 1, 2][(i // 8) % 4],
+                       fam=rng.choice(LIM32_T1_FAMS + ["scalar", "moments", "stacklast", "outer"]), lim32=[["xl"], ["xu"], ["xl", "xu"]][(i // 32) % 3]))
     from vf import c13_extra
     out.extend(c13_extra.cases(seed, tier))
     return out
@@ -196,9 +277,10 @@ def build_problem(desc):
     fam = desc["fam"]
     names, formula = FAMS[fam]
     tgen = torch.Generator().manual_seed(desc["seed"])
-    sh = tuple(desc["pshape"])
+    sh0 = tuple(desc["pshape"])
 
     def draw(nm):
+        sh = tuple(PSHAPES.get(fam, {}).get(nm, sh0))
         if nm in ("a", "lam"):
             return torch.rand(sh, generator=tgen, dtype=dt) * 1.2 + 0.3
         if nm == "b":
@@ -331,8 +413,18 @@ def run_case(desc):
     obs = Obs(desc)
     dt = torch.float64
     fcn, params, P, leaves, leafclass, formula = build_problem(desc)
-    xlo, xl_leaf = _limit(desc["fxl"], desc["xl"], dt)
-    xuo, xu_leaf = _limit(desc["fxu"], desc["xu"], dt)
+    lim32 = list(desc.get("lim32") or [])
+    xlo, xl_leaf = _limit(desc["fxl"], desc["xl"], torch.float32 if "xl" in lim32 else dt)
+    xuo, xu_leaf = _limit(desc["fxu"], desc["xu"], torch.float32 if "xu" in lim32 else dt)
+    lim32 = [w for w, v in (("xl", xlo), ("xu", xuo)) if isinstance(v, torch.Tensor) and v.dtype == torch.float32]
+    if lim32:
+        # the generator's promise: the integrand stays float64 at such a limit (then the limit's precision DIFFERS from the integrand's)
+        with torch.no_grad():
+            for v in (xlo, xuo):
+                if isinstance(v, torch.Tensor):
+                    o = formula(v, P)
+                    if any(c.dtype != dt for c in (o if isinstance(o, tuple) else (o,))):
+                        raise HarnessBug("float32 limit makes the integrand %s" % [c.dtype for c in (o if isinstance(o, tuple) else (o,))])
     xlv, xuv = float(xlo), float(xuo)
     infinite = math.isinf(xlv) or math.isinf(xuv)
     if xl_leaf:
@@ -360,6 +452,16 @@ def run_case(desc):
     param_leaves = [nm for nm in leaves if leafclass[nm] in ("param", "objparam", "unused")]
     used_param_leaves = [nm for nm in param_leaves if leafclass[nm] != "unused"]
     cfg = "%s:%s_%s:%s" % (desc["kind"], desc["fxl"], desc["fxu"], "bckn" if isinstance(nb, int) else "fwdn")
+    outshape = desc["fam"] in SHAPE_FAMS
+    if outshape:
+        cfg += ":outshape_" + desc["fam"]
+    if lim32:
+        cfg += ":lim32_" + "_".join(lim32)
+        obs.count("lim32_cases")
+        if ("xl" in lim32 and xl_leaf) or ("xu" in lim32 and xu_leaf):
+            obs.count("lim32_leaf_cases")
+            if order == 2:
+                obs.count("lim32_leaf_second_order")
     # ---- reach classes
     if number_limit:
         obs.count("number_limit_cases")
@@ -374,8 +476,19 @@ def run_case(desc):
     shp = [tuple(v.shape) if isinstance(v, torch.Tensor) else () for v in (xlo, xuo)]
     if shp[0] != shp[1]:
         obs.count("mixed_shape_limit_cases")
-    if desc["fam"] == "tuple":
+    if desc["fam"] in ("tuple", "tuplestack"):
         obs.count("tuple_output_cases")
+    if outshape:
+        # the quadrature points (and with them y and the cotangent) take the shape of xu; the boundary terms see each limit as it was given
+        obs.count("outshape_cases")
+        if shp[0] != shp[1] and xl_leaf:
+            obs.count("outshape_xl_leaf_other_shape")
+        if shp[0] != shp[1] and xu_leaf:
+            obs.count("outshape_xu_leaf_other_shape")
+        if shp[0] != shp[1] and (xl_leaf or xu_leaf) and order == 2:
+            obs.count("outshape_other_shape_second_order")
+        if not isinstance(xlo, torch.Tensor) or not isinstance(xuo, torch.Tensor):
+            obs.count("outshape_number_limit")
     obs.count("kind_" + desc["kind"].split("_")[0])
     obs.nontrivial = True
 
@@ -475,7 +588,7 @@ def run_case(desc):
                          "gradient of '%s' has shape %s, the tensor has %s" % (nm, tuple(gi.shape), tuple(leaves[nm].shape))):
             continue
         d = _maxabs(gi.detach() - refd.reshape(gi.shape))
-        tol = RTOL * max(1.0, _maxabs(refd))
+        tol = (RTOL32 if leaves[nm].dtype == torch.float32 else RTOL) * max(1.0, _maxabs(refd))
         worst1 = max(worst1, d / tol)
         what = ("-f(xl)" if cls == "xl" else "+f(xu)") if cls in ("xl", "xu") else "derivative of the %d-point rule" % n_bck
         obs.check(d <= tol, key, "gradient of '%s' differs from the %s by %.3e (tolerance %.1e; forward n=%s, bck_options=%s%s)" %
@@ -487,9 +600,11 @@ def run_case(desc):
         lin = [nm for nm in used_param_leaves if nm in LINEAR_IN.get(desc["fam"], [])]
         if lin:
             obs.count("second_order_linear_param")
+        # (directions for float32 leaves are float32-representable, so that no rounding enters the products for the other leaves)
         Vs = [torch.randn(p.shape, generator=tgen, dtype=dt) for p in tens]
+        Vs = [Vi.float().double() if p.dtype == torch.float32 else Vi for Vi, p in zip(Vs, tens)]
         V = dict(zip(names, Vs))
-        terms = [torch.dot(gi.reshape(-1), Vi.reshape(-1)) for gi, Vi in zip(g, Vs) if gi is not None and gi.requires_grad]
+        terms = [torch.dot(gi.reshape(-1).to(dt), Vi.reshape(-1)) for gi, Vi in zip(g, Vs) if gi is not None and gi.requires_grad]
         h = [None] * len(tens)
         if terms:
             with WarnLog():
@@ -545,7 +660,7 @@ def run_case(desc):
                 obs.check(_maxabs(hi) <= RTOL, key, "second-order gradient of size %.3e for '%s' which has no influence" % (_maxabs(hi), nm))
                 continue
             d = _maxabs(hi.detach() - ref.detach().reshape(hi.shape))
-            tol = RTOL * max(1.0, refmax)
+            tol = (RTOL32 if leaves[nm].dtype == torch.float32 else RTOL) * max(1.0, refmax)
             worst2 = max(worst2, d / tol)
             obs.check(d <= tol, key, "second-order gradient (Hessian-vector product) for '%s' differs from the reference by %.3e "
                       "(tolerance %.1e; forward n=%s, bck_options=%s)" % (nm, d, tol, n, nb), fam=desc["fam"], linear_in=lin)
